@@ -151,8 +151,10 @@ def _pure_test(e):
         return all(_pure_test(v) for v in e.values)
     if isinstance(e, ast.UnaryOp) and isinstance(e.op, ast.Not):
         return _pure_test(e.operand)
-    if isinstance(e, ast.Tuple):
+    if isinstance(e, (ast.Tuple, ast.List, ast.Set)):
         return all(_pure_test(v) for v in e.elts)
+    if isinstance(e, ast.Dict):
+        return not e.keys
     if isinstance(e, ast.Call) and isinstance(e.func, ast.Name) and e.func.id in ('len', 'isinstance', 'bool', 'hasattr', 'callable') and not e.keywords:
         return all(_pure_test(a) for a in e.args)
     if isinstance(e, ast.Call) and isinstance(e.func, ast.Attribute) and e.func.attr in _PURE_METHODS and not e.keywords:
@@ -200,7 +202,7 @@ def predicates(fnode, stable=None):
                 if not (isinstance(w, ast.Assign) and len(w.targets) == 1 and isinstance(w.targets[0], ast.Name)):
                     continue
                 v = w.targets[0].id
-                if counts.get(v) != 1 or v in params or not _pure_test(w.value) or isinstance(w.value, (ast.Name, ast.Constant, ast.Attribute)):
+                if counts.get(v) != 1 or v in params or not _pure_test(w.value) or isinstance(w.value, (ast.Name, ast.Constant)):
                     continue
                 val = w.value
                 if isinstance(val, ast.Call) and isinstance(val.func, ast.Name) and val.func.id == 'isinstance' and len(val.args) == 2 and isinstance(val.args[0], ast.Name):
@@ -227,7 +229,13 @@ def predicates(fnode, stable=None):
 def apply_predicates(fnode, stable=None):
     m, _ = predicates(fnode, stable)
     if not m:
-        return None
+        nested = [w for w in ast.walk(fnode) if isinstance(w, (ast.FunctionDef, ast.AsyncFunctionDef)) and w is not fnode]
+        if not any(predicates(w, None)[0] for w in nested):
+            return None
+        new = clone(fnode)
+        _nested_predicates(new)
+        ast.fix_missing_locations(new)
+        return new
     new = clone(fnode)
     m2, bind = predicates(new, None)
     # case (3) was decided on the original: carry the decision over by position
@@ -240,8 +248,26 @@ def apply_predicates(fnode, stable=None):
                 bind[b_.targets[0].id] = id(b_.targets[0])
     tr = _Subst(m2, set(bind.values()))
     new.body = [tr.visit(s) for s in new.body]
+    _nested_predicates(new)
     ast.fix_missing_locations(new)
     return new
+
+
+def _nested_predicates(fnode):
+    """Cases (1) and (2) inside the functions nested in *fnode* (in place; *fnode* is already a private copy)."""
+    class V(ast.NodeTransformer):
+        def visit_FunctionDef(self, n):
+            if n is fnode:
+                self.generic_visit(n)
+                return n
+            m, bind = predicates(n, None)
+            if m:
+                tr = _Subst(m, set(bind.values()))
+                n.body = [tr.visit(s) for s in n.body]
+            _nested_predicates(n)
+            return n
+        visit_AsyncFunctionDef = visit_FunctionDef
+    V().visit(fnode)
 
 
 class _Drops(ast.NodeTransformer):
